@@ -38,7 +38,10 @@ PROP = dict(
                            "stream:request-dispatched": 100000, "peer:frames-received": 100000, "peer:default-replies": 30000,
                            "monitor:reply-id-compared": 100000, "monitor:reply-body-compared": 50000,
                            "monitor:further-reply-refused": 30000, "request:without-id": 10000,
-                           "peer:id-only-requests": 20000, "request:id-only-dispatched": 20000})],
+                           "peer:id-only-requests": 20000, "request:id-only-dispatched": 20000}),
+              dict(name="c12_sync", src=["c12_sync.c"], libs=["mptio", "mptcore"], batch=256, timeout=200,
+                   floors={}),
+              ],
         rule=("c12_id: case = one boundary (id, width) pair or one random id run through widths 0..9 together with nine random headers; "
               "non-trivial = non-zero id accepted by at least one width > 0 (or, for boundary pairs, a refusal within one bit of the width's "
               "limit).  c12_reply: case = one history of 4..24 (thorough 40) operations on one reply context followed by release of everything "
